@@ -464,6 +464,21 @@ func (ck *Check) derefSite(ctx *Ctx, in ssa.Instruction, mkKey func(string) stri
 		}
 	}
 	if why, ok := reviewedReplyFields[typeKey]; ok && typeKey != "" {
+		// the reply object itself reaches this read through a field of a repo structure: whatever is
+		// stored into that field must be present (a reply element, stored under the condition that
+		// makes it one)
+		if u, isLoad := ptr.(*ssa.UnOp); isLoad {
+			if fa, isFA := u.X.(*ssa.FieldAddr); isFA {
+				if bl, isBL := fa.X.(*ssa.UnOp); isBL && bl.Op == token.MUL {
+					if bf := fieldOfAddr(bl.X); bf != nil && bf.Pkg() != nil && ck.P.isShippedPkg(bf.Pkg()) {
+						if okS, whyS := ck.fieldStoresPresent(bf); !okS {
+							ck.fail("C20.R2", key, ck.P.instrPos(in), funcID(fn), "the API object read here ("+bf.Name()+") is present (reviewed ("+typeKey+"): "+why+")", whyS, "a value that may be nil is stored into "+bf.Name()+" and dereferenced here: "+whyS)
+							return
+						}
+					}
+				}
+			}
+		}
 		ck.ok("C20.R2", key, ck.P.instrPos(in), funcID(fn), "the dereferenced value ("+desc+") is known to be present", "reviewed ("+typeKey+"): "+why)
 		return
 	}
@@ -477,6 +492,17 @@ func (ck *Check) derefSite(ctx *Ctx, in ssa.Instruction, mkKey func(string) stri
 		}
 	}
 	if why, ok := reviewedDerefs[funcID(fn)+"/"+fieldName]; ok {
+		// a reviewed field of a repo structure is backed by its stores: whatever is stored into it is
+		// present under the condition it is stored under (an entry whose reason stopped being true is
+		// reported, not trusted)
+		if u, isLoad := ptr.(*ssa.UnOp); isLoad {
+			if f := fieldOfAddr(u.X); f != nil && f.Pkg() != nil && ck.P.isShippedPkg(f.Pkg()) {
+				if okS, whyS := ck.fieldStoresPresent(f); !okS {
+					ck.fail("C20.R2", key, ck.P.instrPos(in), funcID(fn), "the dereferenced value ("+desc+") is known to be present (reviewed: "+why+")", whyS, "the reason of the reviewed entry no longer holds: a value that may be nil is stored into the field and dereferenced here")
+					return
+				}
+			}
+		}
 		ck.ok("C20.R2", key, ck.P.instrPos(in), funcID(fn), "the dereferenced value ("+desc+") is known to be present", "reviewed: "+why)
 		return
 	}
@@ -651,6 +677,17 @@ func (ck *Check) isInductionLoop(l *Loop) bool {
 	for _, bo := range tests {
 		for _, side := range [][2]ssa.Value{{bo.X, bo.Y}, {bo.Y, bo.X}} {
 			ph, ok := side[0].(*ssa.Phi)
+			if !ok {
+				// the rotated form go/ssa gives `for i := range n`: the test at the bottom of the body
+				// reads the stepped value i+1, which is the φ of the next trip
+				if st, isStep := side[0].(*ssa.BinOp); isStep && (st.Op == token.ADD || st.Op == token.SUB) {
+					if p2, isPhi := st.X.(*ssa.Phi); isPhi {
+						if k, isK := st.Y.(*ssa.Const); isK && k.Value != nil && k.Int64() > 0 {
+							ph, ok = p2, true
+						}
+					}
+				}
+			}
 			if !ok || ph.Block() != h {
 				continue
 			}
@@ -724,7 +761,7 @@ func (ck *Check) isTimedWait(l *Loop) bool {
 				if ck.isTimerChan(st.Chan, 0) {
 					// some path from the select leaves the loop via a return / exit edge: the timer case
 					for _, e := range l.Exits {
-						if e[0] != l.Header {
+						if !l.exhaustionExit(e[0]) {
 							return true
 						}
 					}
@@ -1181,4 +1218,194 @@ func (ck *Check) ownedBy(fn, owner *ssa.Function, depth int) bool {
 		}
 	}
 	return true
+}
+
+var fieldStoresMemo = map[*types.Var][2]string{}
+
+// fieldStoresPresent: every store into field f (of a repo structure) stores a value that is
+// present — an element or field of an API reply or a fresh object — under the path condition of
+// the store; a value that comes out of a structure parameter is followed to the call sites, case
+// by case of what the callers hand in (so `lookup{found, err}` built by one helper and consumed by
+// another under `err == nil` is decided on the pairs the first helper can build).
+func (ck *Check) fieldStoresPresent(f *types.Var) (bool, string) {
+	if m, ok := fieldStoresMemo[f]; ok {
+		return m[0] == "ok", m[1]
+	}
+	res, why := true, ""
+	for _, fn := range ck.P.Funcs {
+		for _, b := range fn.Blocks {
+			for _, in := range b.Instrs {
+				st, ok := in.(*ssa.Store)
+				if !ok || fieldOfAddr(st.Addr) != f {
+					continue
+				}
+				ctx := ck.P.NewCtx(fn)
+				if okv, w := ck.presentUnder(fn, ctx.Term(st.Val), ctx.PC(st), 0); !okv && res {
+					res, why = false, "store at "+ck.P.instrPos(st)+": "+w
+				}
+			}
+		}
+	}
+	tag := "ok"
+	if !res {
+		tag = "bad"
+	}
+	fieldStoresMemo[f] = [2]string{tag, why}
+	return res, why
+}
+
+func definitelyNilTerm(t *Term) bool {
+	return t == nil || t.Kind == "zero" || (t.Kind == "const" && t.Name == "nil")
+}
+
+func definitelyPresentTerm(t *Term) bool {
+	switch t.Kind {
+	case "alloc":
+		return true
+	case "unop":
+		return t.Name == "&"
+	case "call":
+		n := t.Name
+		return n == "errors.New" || n == "fmt.Errorf" || strings.HasSuffix(n, "errors.Errorf") || strings.HasSuffix(n, "errors.New")
+	}
+	return false
+}
+
+// presentUnder: value v of fn is present (non-nil) whenever pc holds.
+func (ck *Check) presentUnder(fn *ssa.Function, v *Term, pc *Formula, depth int) (bool, string) {
+	if sat, err := Satisfiable(pc); err == nil && !sat {
+		return true, ""
+	}
+	if definitelyNilTerm(v) {
+		return false, "nil is stored under " + trunc(pc.String())
+	}
+	if definitelyPresentTerm(v) {
+		return true, ""
+	}
+	// the guard itself
+	if imp, _, _ := Entails(pc, Not(cmpFormula(token.EQL, v, &Term{Kind: "const", Name: "nil"}))); imp {
+		return true, ""
+	}
+	// a field of a structure handed in by value: followed to the call sites
+	var prm *ssa.Parameter
+	if v.Kind == "field" && len(v.Args) == 1 && v.Args[0].Kind == "param" {
+		if p, ok := v.Args[0].Val.(*ssa.Parameter); ok && p.Parent() == fn {
+			if _, isStruct := p.Type().Underlying().(*types.Struct); isStruct {
+				prm = p
+			}
+		}
+	}
+	if prm == nil {
+		// an element / field path of a reply or of repo state, or a pointer handed in: present by
+		// the reply assumption (parameters are non-nil by assumption)
+		switch v.Kind {
+		case "elem", "index", "field", "deref", "extract", "param":
+			return true, ""
+		}
+		return false, "value not understood: " + v.String()
+	}
+	if depth >= 2 {
+		return false, "value not understood: " + v.String()
+	}
+	idx := -1
+	for i, q := range fn.Params {
+		if q == prm {
+			idx = i
+		}
+	}
+	pT := paramTerm(prm)
+	sites := 0
+	for _, caller := range ck.P.callers[fn] {
+		cs := callsTo(caller, fn)
+		if len(cs) == 0 {
+			return false, funcID(fn) + " is also entered dynamically"
+		}
+		cctx := ck.P.NewCtx(caller)
+		for _, ci := range cs {
+			sites++
+			if idx < 0 || idx >= len(ci.Common().Args) {
+				return false, "argument not found"
+			}
+			var cases []valueCase
+			for _, vc := range ck.valueCases(cctx, cctx.PC(ci), ci.Common().Args[idx], 0) {
+				// the structure is what a repo function returned (whatever that function does besides):
+				// one case per return
+				if c, isCall := vc.term.Val.(*ssa.Call); isCall && vc.term.Kind == "call" && vc.term.Fn != nil && ck.P.inRepo(vc.term.Fn) && vc.term.Fn.Blocks != nil && vc.term.Fn.Signature.Results().Len() == 1 {
+					h := vc.term.Fn
+					args := make([]*Term, len(c.Common().Args))
+					for i, av := range c.Common().Args {
+						args[i] = cctx.Term(av)
+					}
+					ch := cctx.child(h, c, args)
+					ch.depth = 0
+					for _, hb := range h.Blocks {
+						if hr, ok := hb.Instrs[len(hb.Instrs)-1].(*ssa.Return); ok && len(hr.Results) == 1 {
+							cases = append(cases, valueCase{guard: And(vc.guard, ch.BlockPC(hb)), term: ch.Term(hr.Results[0]), pos: hr})
+						}
+					}
+					continue
+				}
+				cases = append(cases, vc)
+			}
+			for _, vc := range cases {
+				st, _ := vc.term.Typ.Underlying().(*types.Struct)
+				comp := func(fld types.Object) *Term {
+					if vc.term.Kind == "zero" {
+						return &Term{Kind: "const", Name: "nil"}
+					}
+					for i := 0; st != nil && i < st.NumFields() && i < len(vc.term.Args); i++ {
+						if st.Field(i) == fld {
+							if vc.term.Args[i] == nil {
+								return &Term{Kind: "const", Name: "nil"}
+							}
+							return vc.term.Args[i]
+						}
+					}
+					return nil
+				}
+				if vc.term.Kind != "struct" && vc.term.Kind != "zero" {
+					return false, "the structure handed to " + fn.Name() + " is not understood: " + vc.term.String()
+				}
+				known := true
+				sub := rewriteFormula(pc, func(t *Term) *Term {
+					if t.Kind == "field" && len(t.Args) == 1 && t.Args[0].Key() == pT.Key() {
+						if c := comp(t.Obj); c != nil {
+							return c
+						}
+						known = false
+					}
+					return nil
+				})
+				if !known {
+					return false, "a field of the structure is not determined"
+				}
+				sub = sub.Subst(func(t *Term) *Formula {
+					if t.Kind == "cmp" && t.Name == "==" && len(t.Args) == 2 {
+						for i := 0; i < 2; i++ {
+							if definitelyNilTerm(t.Args[i]) {
+								if definitelyNilTerm(t.Args[1-i]) {
+									return FTrue
+								}
+								if definitelyPresentTerm(t.Args[1-i]) {
+									return FFalse
+								}
+							}
+						}
+					}
+					return nil
+				})
+				nv := comp(v.Obj)
+				if nv == nil {
+					return false, "a field of the structure is not determined"
+				}
+				if okv, w := ck.presentUnder(caller, nv, And(vc.guard, sub), depth+1); !okv {
+					return false, w
+				}
+			}
+		}
+	}
+	if sites == 0 {
+		return false, "no call site of " + funcID(fn)
+	}
+	return true, ""
 }
